@@ -5,7 +5,7 @@ From Coq Require Import List Arith ZArith Ring Lia.
 From TLV Require Import Base.Shape Base.PyList Base.Tensor Base.BigSum Base.Ops Model.Base Model.Factorized
   Proofs.FactorizedProofs Proofs.FactorizedProofs2 Proofs.FactorizedProofs3 Proofs.FactorizedProofs4
   Proofs.FactorizedProofs5 Proofs.FactorizedProofs6 Proofs.FactorizedProofs7 Proofs.FactorizedProofs8
-  Proofs.FactorizedProofs9 Proofs.FactorizedProofs10.
+  Proofs.FactorizedProofs9 Proofs.FactorizedProofs10 Proofs.FactorizedProofs11.
 Import ListNotations.
 
 Definition is_ring {F : Type} (Op : fops F) : Prop :=
@@ -236,6 +236,24 @@ Print Assumptions C03_ttm_to_matrix.
 
 Example C03_ttm_hyps : ttm_cores Z 1 [mk [1; 2; 1; 2] [1; 2; 3; 4]%Z; mk [2; 1; 3; 1] [1; 0; 2; -1; 1; 1]%Z] [2; 1] [1; 3] 1.
 Proof. econstructor; [reflexivity | lia |]. econstructor; [reflexivity | lia | constructor]. Qed.
+
+(* both tenalg backends: the einsum route (np.einsum sum of products over all rank labels, then the same transposition) returns
+   the same tensor as the core route (tensordot chain) on every well-formed TT-matrix, and so do the matrix / unfolded / vec views *)
+Theorem C03_ttm_einsum_eq_core : forall (F : Type) (Op : fops F), is_ring Op ->
+  forall (cs : list (tensor F)) (ns ms : list nat),
+  cs <> [] -> ttm_cores F 1 cs ns ms 1 ->
+  ttm_to_tensor_einsum Op cs = ttm_to_tensor Op cs.
+Proof. exact ttm_einsum_eq_core. Qed.
+Print Assumptions C03_ttm_einsum_eq_core.
+
+Theorem C03_ttm_einsum_views_eq : forall (F : Type) (Op : fops F), is_ring Op ->
+  forall (cs : list (tensor F)) (ns ms : list nat),
+  cs <> [] -> ttm_cores F 1 cs ns ms 1 ->
+  ttm_to_matrix_einsum Op cs = ttm_to_matrix Op cs /\
+  (forall m, ttm_to_unfolded_einsum Op cs m = ttm_to_unfolded Op cs m) /\
+  ttm_to_vec_einsum Op cs = ttm_to_vec Op cs.
+Proof. exact ttm_einsum_views_eq. Qed.
+Print Assumptions C03_ttm_einsum_views_eq.
 
 (* ------------------------------------------------------------------ reported shape = shape of the reconstruction *)
 (* whatever a validator accepts (with positive ranks / sizes) is reconstructed, WITH THE REPORTED SHAPE, to the defining contraction *)
